@@ -51,8 +51,9 @@ type stats struct {
 	Samples       []any          `json:"samples,omitempty"`
 	MinimiseExecs int            `json:"minimise_execs"`
 	Harness       []string       `json:"harness_trouble,omitempty"`
-	FirstIdx      int64          `json:"first_idx"`
-	LastIdx       int64          `json:"last_idx"`
+	poisoned      bool
+	FirstIdx      int64 `json:"first_idx"`
+	LastIdx       int64 `json:"last_idx"`
 }
 
 type foundFailure struct {
@@ -88,6 +89,7 @@ var (
 	fM       = flag.Int("m", 60, "pairs: number of sampled operations; preempt: number of pairs")
 	fCap     = flag.Int("cap", 3000, "preempt: max preemption points per pair")
 	fMaxFail = flag.Int("maxfail", 12, "stop collecting failures after this many")
+	fMinRuns = flag.Int64("minruns", 0, "burst: run at least this many bursts even if -seconds is over (up to 6x -seconds)")
 	fBurst   = flag.Bool("burst", false, "export: a burst plan")
 	fText    = flag.Bool("text", false, "refone: print the dump text")
 )
@@ -312,8 +314,14 @@ func (st *stats) addFailure(idx int64, f failure, cases []runCase, refs *refTabl
 		return
 	}
 	note := ""
+	if f.Oracle == "O6" {
+		// a deadlock leaves simulated locks held for ever: this process is poisoned; the
+		// recorded schedule is reported as it is and the worker stops
+		minimiseIt = false
+		st.poisoned = true
+	}
 	if minimiseIt {
-		m := &minimiser{refs: refs, cls: failClass(f.Oracle), budget: 1500}
+		m := &minimiser{refs: refs, cls: failClass(f.Oracle), budget: 1500, deadline: time.Now().Add(20 * time.Second)}
 		before := m.size(cases)
 		cases = m.minimise(cases)
 		st.MinimiseExecs += m.execs
@@ -525,11 +533,11 @@ func modeWork() error {
 		}
 		st.LastIdx = idx
 		idx += int64(*fOf)
-		if len(st.Failures) >= *fMaxFail {
+		if len(st.Failures) >= *fMaxFail || st.poisoned {
 			break
 		}
 	}
-	if *fVerify > 0 && len(st.Failures) < *fMaxFail {
+	if *fVerify > 0 && len(st.Failures) < *fMaxFail && !st.poisoned {
 		verifySlice(st, refs, *fW%*fVerify, *fVerify, true, "after the simulated runs of a worker process, in reverse order")
 	}
 	side.close()
@@ -586,7 +594,7 @@ func modePairs() error {
 			st.addFailure(int64(ai), f, []runCase{{plan: plan, sched: &Schedule{}}}, refs, true)
 			break
 		}
-		if len(st.Failures) >= *fMaxFail {
+		if len(st.Failures) >= *fMaxFail || st.poisoned {
 			break
 		}
 	}
@@ -680,12 +688,15 @@ func modePreempt() error {
 					st.addFailure(int64(job), f, []runCase{{plan: plan, sched: sc}}, refs, true)
 					break
 				}
-				if len(st.Failures) >= *fMaxFail {
+				if len(st.Failures) >= *fMaxFail || st.poisoned {
 					break
 				}
 			}
+			if st.poisoned {
+				break
+			}
 		}
-		if len(st.Failures) >= *fMaxFail {
+		if len(st.Failures) >= *fMaxFail || st.poisoned {
 			break
 		}
 	}
@@ -707,13 +718,14 @@ func modeBurst() error {
 	}
 	st := newStats("burst", *fW)
 	deadline := start.Add(time.Duration(*fSeconds * float64(time.Second)))
+	hardDeadline := start.Add(time.Duration(*fSeconds * 6 * float64(time.Second)))
 	idx := *fFrom + int64(*fW)
 	st.FirstIdx = idx
 	for n := int64(0); ; n++ {
 		if *fRuns > 0 && n >= *fRuns {
 			break
 		}
-		if *fRuns == 0 && time.Now().After(deadline) {
+		if *fRuns == 0 && time.Now().After(deadline) && (n >= *fMinRuns || time.Now().After(hardDeadline)) {
 			break
 		}
 		r := runSeed(*fSeed^0xb0057, idx)
@@ -775,6 +787,9 @@ func modeReplay() error {
 	if err != nil {
 		return err
 	}
+	if rf.Prefix != nil && rf.Mode == "burst" {
+		return replayPrefix(rf)
+	}
 	cases, err := installReplayPool(rf)
 	if err != nil {
 		return err
@@ -830,6 +845,41 @@ func modeReplay() error {
 		os.Exit(1)
 	}
 	fmt.Printf("NOT-REPRODUCED: every oracle held on the replayed execution (%d attempt(s))\n", attempts)
+	return nil
+}
+
+// replayPrefix re-executes the seeded bursts of a worker process up to the one that failed.
+// The race detector (exit 66) or a fatal runtime error ends the process when it reproduces.
+func replayPrefix(rf *ReplayFile) error {
+	p := rf.Prefix
+	if *fRoot == "" {
+		return fmt.Errorf("a seeded-prefix replay needs -root")
+	}
+	if err := buildPool(*fRoot, p.Seed, p.Corrupt, p.Churn); err != nil {
+		return err
+	}
+	n := 0
+	for attempt := 0; attempt < 3; attempt++ {
+		for idx := p.First; idx <= p.Last+20*p.Stride; idx += p.Stride {
+			r := runSeed(p.Seed^0xb0057, idx)
+			plan, _ := genPlan(r, nil)
+			for ti := range plan.Tasks {
+				for oi := range plan.Tasks[ti].Ops {
+					plan.Tasks[ti].Ops[oi].Scribble = false
+				}
+			}
+			res := execBurst(plan, nil)
+			n++
+			for _, f := range res.Fails {
+				if f.Oracle != "HARNESS" {
+					fmt.Printf("replayed %s: burst %d: oracle %s: %s\n", *fFile, idx, f.Oracle, f.Detail)
+					fmt.Printf("REPRODUCED oracle=%s attempt=%d\nVIOLATION property=C18 replay=%s\n", f.Oracle, attempt+1, *fFile)
+					os.Exit(1)
+				}
+			}
+		}
+	}
+	fmt.Printf("NOT-REPRODUCED: %d bursts re-executed, no race report and every oracle held\n", n)
 	return nil
 }
 
